@@ -456,7 +456,7 @@ def driver_runs(ctx, world, tmpdir):
                 "downloaders": {"read_tle_files": {"paths": [fn]}}, "logging": {"version": 1, "disable_existing_loggers": False}}
         cf = os.path.join(tmpdir, "conf%d.yaml" % k)
         with open(cf, "w") as f:
-            yaml.safe_dump(conf, f)
+            yaml.safe_dump(conf, f, sort_keys=False)
         out = os.path.join(outdir, "t.txt")
         if os.path.exists(out):
             os.remove(out)
@@ -496,9 +496,9 @@ def run(ctx):
         hists = [(h, "corpus") for h in corpus(world)]
         for h in list(corpus(world))[:ctx.n(6, 20)]:
             hists += [(v, "corpus-crash") for v in crash_variants(h)]
-        for _ in range(ctx.n(300, 1500)):
+        for _ in range(ctx.n(700, 2500)):
             hists.append((gen_history(world, rng), "random"))
-        for _ in range(ctx.n(6, 40)):
+        for _ in range(ctx.n(12, 60)):
             h = gen_history(world, rng, maxlen=8)
             vs = crash_variants(h)
             hists += [(v, "random-crash") for v in (vs if not ctx.quick else rng.sample(vs, min(len(vs), 16))) if len(v[1]) <= 12]
